@@ -72,8 +72,10 @@ Definition child_share (p total : res) (parentP : res) : res :=
 Inductive qres (A : Type) := QVal (a : A) | QCrash.
 Arguments QVal {A} a. Arguments QCrash {A}.
 
-(* result: the leaf queues with their share of the preemptable resource *)
-Fixpoint distribute (fuel : nat) (w : world) (q : queue) (parentP : ores) : qres (list (N * res)) :=
+(* result: the leaf queues with their share of the preemptable resource.
+   [pinned] selects the code before the commit "fix: quota preemption of a parent queue panicked when its usage
+   above the max was already being preempted" (a nil parentPreemptableResource was dereferenced) *)
+Fixpoint distributeF (pinned : bool) (fuel : nat) (w : world) (q : queue) (parentP : ores) : qres (list (N * res)) :=
   match fuel with
   | O => QVal []
   | S f =>
@@ -82,7 +84,8 @@ Fixpoint distribute (fuel : nat) (w : world) (q : queue) (parentP : ores) : qres
       | [] => QVal []
       | _ =>
           match parentP with
-          | None => QCrash                 (* parentPreemptableResource.Resources on a nil pointer *)
+          | None => if pinned then QCrash  (* parentPreemptableResource.Resources on a nil pointer *)
+                    else QVal []           (* nothing to distribute *)
           | Some pp =>
               let total := fold_left (fun t cp => addTo t (snd cp)) cs [] in
               fold_left (fun acc cp =>
@@ -91,7 +94,7 @@ Fixpoint distribute (fuel : nat) (w : world) (q : queue) (parentP : ores) : qres
                            | QVal l =>
                                let cp' := child_share (snd cp) total pp in
                                if q_leaf (fst cp) then QVal (l ++ [(q_id (fst cp), cp')])
-                               else match distribute f w (fst cp) (Some cp') with
+                               else match distributeF pinned f w (fst cp) (Some cp') with
                                     | QCrash => QCrash
                                     | QVal l' => QVal (l ++ l')
                                     end
@@ -124,14 +127,16 @@ Definition quota_leaf (w : world) (q : queue) (p : ores) (order : list N) : opti
                (match qp_victims st with [] => None | _ => qp_total st end))
   else None.
 
+Definition distribute := distributeF false.
 (* the contexts QuotaPreemptionContext.tryPreemption works on, for the queue it is started for *)
-Definition quota_contexts (w : world) (q : queue) : qres (list (N * ores)) :=
+Definition quota_contextsF (pinned : bool) (w : world) (q : queue) : qres (list (N * ores)) :=
   let p := setPreemptable w q in
   if q_leaf q then QVal [(q_id q, p)]
-  else match distribute (S (length (w_queues w))) w q p with
+  else match distributeF pinned (S (length (w_queues w))) w q p with
        | QCrash => QCrash
        | QVal l => QVal (map (fun ir => (fst ir, Some (snd ir))) l)
        end.
+Definition quota_contexts := quota_contextsF false.
 
 (* ---- timing: setPreemptionTime, IncAllocatedResource, tryAcquirePreemption ---- *)
 Record qtime := mkQT { qt_delay : Z; qt_start : option Z; qt_running : bool }.
